@@ -37,8 +37,8 @@ Definition withdraws (argv : list str) : bool :=
 
 Definition mon_step (m : mstate) (id : Z) (argv : list str) (outs : list out) : option mstate :=
   if announces argv then mon_outs (mset id false m) outs
-  else match mon_outs m outs with
-       | Some m' => Some (if withdraws argv then mdel id m' else m')
+  else match mon_outs (if withdraws argv then mdel id m else m) outs with    (* a D / T line withdraws the id BEFORE its outputs are judged *)
+       | Some m' => Some m'
        | None => None
        end.
 
